@@ -120,7 +120,7 @@ fn run_seed_cases(cx: &mut Ctx, seeds: &[Seed], idx: &mut u64) -> bool {
             }
         }
         let total = all.len();
-        let take = if thorough { total } else { total.min(if seed.bytes.len() > 20_000 { 150 } else { 700 }) };
+        let take = if thorough { total } else { total.min(if seed.bytes.len() > 20_000 { 400 } else { 2000 }) };
         let mut rng = Rng::derive(cx.args.seed, 0x51, si as u64);
         if take < total {
             rng.shuffle(&mut all);
@@ -165,8 +165,27 @@ fn run_seed_cases(cx: &mut Ctx, seeds: &[Seed], idx: &mut u64) -> bool {
                 return false;
             }
         }
+        // ---- directed pairs: a box's own size (and its ancestors') together with its count
+        for (k, (b, m)) in size_count_cases(seed).into_iter().enumerate() {
+            *idx += 1;
+            if !cx.args.mine(*idx) {
+                continue;
+            }
+            let id = format!("s{}:szcnt:{}", si, k);
+            if !cx.args.want(&id) {
+                continue;
+            }
+            for c in &m.cover {
+                cx.rep.cover_nt(hash_str(c));
+            }
+            cx.rep.add("size_and_count_pairs", 1);
+            judge(cx, &id, &Rc::new(b), &format!("{}: {}", seed.name, m.desc), &inits);
+            if cx.rep.too_many_fails() {
+                return false;
+            }
+        }
         // ---- pairs and havoc
-        let np = if thorough { 3000 } else { 250 };
+        let np = if thorough { 8000 } else { 1000 };
         for k in 0..np {
             *idx += 1;
             if !cx.args.mine(*idx) {
@@ -187,7 +206,7 @@ fn run_seed_cases(cx: &mut Ctx, seeds: &[Seed], idx: &mut u64) -> bool {
                 return false;
             }
         }
-        let nh = if thorough { 6000 } else { 500 };
+        let nh = if thorough { 16000 } else { 2000 };
         for k in 0..nh {
             *idx += 1;
             if !cx.args.mine(*idx) {
@@ -300,7 +319,7 @@ fn run_amplifiers(cx: &mut Ctx, idx: &mut u64) -> bool {
 /// with one byte-level havoc variant each. This widens the *shapes* the fixed seed corpus has.
 fn run_generated(cx: &mut Ctx, idx: &mut u64) -> bool {
     use crate::model::*;
-    let n = cx.args.scale(4_000, 40_000);
+    let n = cx.args.scale(16_000, 200_000);
     for i in 0..n {
         *idx += 1;
         if !cx.args.mine(*idx) {
